@@ -158,7 +158,7 @@ def _create_outside_package_class(
             module_name_info = ""
             if python_module_path != module_path_camel_case:
                 module_text += f'@PythonModule("{python_module_path}")\n'
-            module_text += f"{module_name_info}package {module_path_camel_case}\n"
+            module_text += f"{module_name_info}package {_replace_if_safeds_keyword(module_path_camel_case)}\n"
 
             module_text += _create_outside_package_class_text(class_name, naming_convention)
 
